@@ -188,6 +188,10 @@ func Run(args []string) {
 			break
 		}
 	}
+	g.co = g.coalesce(run.Thorough())
+	if g.co.skipped != "" {
+		g.noteNotExhaustive("coalesced-batch part not run: " + g.co.skipped)
+	}
 	g.finish()
 }
 
@@ -230,6 +234,7 @@ func (g *global) finish() {
 		}
 		run.Assumption = []string{
 			"bbolt's public MaxBatchSize knob is set to 1 on each opened handle (reflection) so that a lone Batch call starts immediately; this changes latency only",
+			"coalesced batches: MaxBatchSize n and MaxBatchDelay 1h (same knobs) make the n calls of an execution share one bbolt batch; the arrival order is fixed by starting a caller only when the previous one is parked inside bbolt.DB.Batch (goroutine state); the order in which bbolt re-runs the surviving closures is left open (any order of the successful calls is accepted)",
 			"each database file is grown once at creation so that no write transaction has to remap the file while the isolation check holds a read transaction open in the same goroutine (a documented bbolt restriction)",
 			"a call that makes no progress for " + g.hang.String() + " counts as a deadlock",
 			"states are restored by clearing the namespace and writing the model in one Update; every restore is verified by a dump before it is used",
@@ -258,6 +263,9 @@ func (g *global) finish() {
 			"universes":                                g.ustats,
 			"bounds":                                   g.bounds,
 			"batch_available":                          g.haveBatch,
+			"coalesced_batch_executions":               g.co.execs,
+			"coalesced_batch_with_failing_sibling":     g.co.withFailingSibling,
+			"coalesced_batch_closure_reruns":           g.co.reruns,
 			"batch_immediate":                          g.batchFast,
 			"workers":                                  nWorkers,
 			"exhaustive":                               len(g.notExh) == 0,
